@@ -26,7 +26,7 @@ RULES = [
     ("R-shuffle", "action_ids . shuffle ( & mut rand :: thread_rng ( ) ) ;", "vx_shuffle ( & mut action_ids , & mut rand :: thread_rng ( ) ) ;", "rand SliceRandom::shuffle stand-in (trusted: permutes in place)"),
     ("R-abs", "for ( _ , tx ) in self . bootstrap_txs . drain ( ) { tx . send ( ( ) ) . unwrap_or ( ( ) ) }", "vx_notify_all ( & mut self . bootstrap_txs ) ;", "ABSTRACTION: notifying bootstrap waiters (HashMap::drain + oneshot) replaced by an opaque stand-in; the loop is not verified"),
     ("R-abs", "let ( iterate_nodes , next_dist_to_beat ) = if ! nodes . is_empty ( ) { $body } else { ( None , dist_to_beat ) } ;", "let ( iterate_nodes , next_dist_to_beat ) = vx_abs_pick_nodes ( & mut self . all_sorted_nodes , & self . requested_nodes , nodes , dist_to_beat , self . target_id ) ;", "ABSTRACTION: lookup.rs next-node selection (fold / pick_iterate_nodes / insert_sorted_node over generic iterators) replaced by an opaque stand-in that may only write all_sorted_nodes; the block is not verified"),
-    ("R-abs", "let assorted_bucket = & buckets [ buckets . len ( ) - 1 ] ; $rest }", "vx_abs_assorted ( buckets , self_node_id ) }", "ABSTRACTION: the tail of precompute_assorted_nodes (peekable + enumerate over the last bucket) replaced by an opaque stand-in; only the early return for a full-depth table is verified"),
+    ("R-abs", "let mut assorted_iter = assorted_bucket . iter ( ) . peekable ( ) ; $rest }", "vx_abs_assorted ( buckets , self_node_id ) }", "ABSTRACTION: the tail of precompute_assorted_nodes (peekable + enumerate over the last bucket) replaced by an opaque stand-in; only the early return for a full-depth table is verified"),
     ("R-clpat", ". filter ( | ( $pat ) | $b )", ". filter ( | p | let ( $pat ) = p ; $b )", "closure pattern parameter -> named parameter + leading let (Verus needs a named parameter to state the closure's ensures)"),
     ("R-clpat", ". map ( | ( $pat ) | $b )", ". map ( | p | let ( $pat ) = p ; $b )", "closure pattern parameter -> named parameter + leading let"),
     ("R-inline", "split_bucket . iter ( )", "split_bucket . nodes . iter ( )", "one-expression accessor Bucket::iter inlined"),
